@@ -51,6 +51,8 @@ type mvInput struct {
 	Drains  bool  `json:"drains,omitempty"`
 	Iso     bool  `json:"iso,omitempty"` // re-scan every open snapshot after every mutating op
 	Delta   bool  `json:"delta,omitempty"` // UseDeltaInterleaving
+	Rate    int   `json:"rate,omitempty"`  // refresh rate of the Visitor's iterators (0 = the default 10000)
+	Fine    bool  `json:"fine,omitempty"`  // delta runs: also pause the scan inside Iterator.Refresh
 }
 
 func b2i(bs []byte) []int {
@@ -205,6 +207,9 @@ func newExec(in *mvInput) *mvExec {
 	}
 	if in.Delta {
 		cfg.UseDeltaInterleaving()
+	}
+	if in.Rate > 0 {
+		cfg.VerifSetRefreshRate(in.Rate)
 	}
 	e.base = [4]int64{atomic.LoadInt64(&hookGCSent), atomic.LoadInt64(&hookGCDone), atomic.LoadInt64(&hookFreeSent), atomic.LoadInt64(&hookFreeDone)}
 	e.db = nitro.NewWithConfig(cfg)
@@ -1039,6 +1044,9 @@ func mvCommandTie(prop, mode, tie string, rule string) func(a runArgs) error {
 				runLive(&in, r, in.GenN, sink)
 			case "delta":
 				runDelta(&in, r, in.GenN, sink)
+				if in.Fine {
+					sink.cases = nil
+				}
 			case "visit":
 				runVisit(&in, r, in.GenN, sink, !regen)
 			default:
@@ -1060,9 +1068,16 @@ func mvCommandTie(prop, mode, tie string, rule string) func(a runArgs) error {
 				in.GenN = 10 + n/2
 				sink.Begin(in)
 				runLive(in, r, in.GenN, sink)
-			case "delta":
+			case "delta", "delta-fine":
+				in.Mode = "delta"
 				in.GenN = 6 + n/4
 				in.MM = (i/2)%2 == 1
+				in.Rate = []int{0, 1, 2, 3}[top.Intn(4)]
+				if mode == "delta-fine" {
+					in.Fine = true
+					in.MM = true
+					in.Rate = 1 + top.Intn(3)
+				}
 				sink.Begin(in)
 				runDelta(in, r, in.GenN, sink)
 			case "visit":
@@ -1156,6 +1171,10 @@ func init() {
 	commands["mvcc-gc"] = mvCommand("C06", "gc", "as mvcc, plus forced GC() + wait-for-quiescence points at which the physical level-0 content (item, bornSn, deadSn) is compared with the model after draining its workers; oracle: live/visible versions present, collectable versions gone")
 	commands["mvcc-live"] = mvCommandTie("C01", "live", "Tie.LiveTie", "a generated history, then a LONG-LIVED iterator on a random open snapshot (refresh rate 0/1/2/3/7): SeekFirst/Seek, then Next steps, with 0..6 generated operations of the history generator (Put/Delete/DeleteNode of the snapshot's keys and others, NewSnapshot, Open/Close of other snapshots, GC, drained workers) between any two iterator steps; real collection workers running; iterator observations (Valid, bytes, node identity) and the outputs of the interleaved operations are compared with the model; oracle: the scan yields exactly the items the snapshot held at creation; non-trivial = >= 3 interleaved segments that changed the physical store and a view of >= 2 items")
 	commands["mvcc-delta"] = mvCommandTie("C05", "delta", "Tie.DeltaTie", "delta interleaving on a MOVING store: a generated history over a dozen keys and several epochs, then StoreToDisk of a random open snapshot (UseDeltaInterleaving, one visitor goroutine) paused after EVERY item it writes while 0..4 generated operations run (Put/Delete/DeleteNode, NewSnapshot, Open/Close, GC with drained workers) and, in a third of the pauses, the stored snapshot itself is released, some of its items are deleted and collected; data shards, delta files and per-operation outputs are compared with the model; oracles: data ∪ delta = snapshot, data strictly increasing, LoadFromDisk returns exactly the snapshot; non-trivial = at least one delta item, the physical store changed in >= 2 pauses, view of >= 3 items")
+	commands["mvcc-delta-fine"] = func(a runArgs) error {
+		f := mvCommandTie("C04", "delta-fine", "Tie.DeltaTie", "ORACLE ONLY: as mvcc-delta with user-managed memory on the guard allocator and a refresh rate of 1..3, the scan additionally paused inside Iterator.Refresh between dropping the old barrier session and taking the new one (the only moment a delta-mode scan holds no session): the stored snapshot is released, its items are deleted, collected and freed there; oracles: no fault (a use-after-free faults), no double free, no leak, data ∪ delta = snapshot, restore exact")
+		return f(a)
+	}
 	commands["mvcc-iter"] = mvCommand("C09", "iter", "a generated history, then an iterator script (SeekFirst/Seek present-absent-below-above/Next/Refresh/SetRefreshRate in {0,1,2,3,7}) on a random open snapshot; non-trivial = the store physically holds versions invisible to that snapshot and the view has >=2 items")
 	commands["mvcc-visit"] = mvCommand("C10", "visit", "a generated history, then Visitor on a random (often the oldest) open snapshot with shards in {1,2,3,4,5,8,16,64}, concurrency in {1,2,8}, the real pivots read through GetRangeSplitItems and fed to the model; 1 in 4 runs injects a callback error (oracle only); non-trivial = some key has several physical versions, view >= 2 items, shards > 1")
 }
